@@ -12,6 +12,7 @@ Strings are byte lists.  `replace` follows the Go loop as it is written:
     prefix in front of a placeholder is dropped,
   * the substituted value is appended to `result` and never looked at again; scanning
     continues in the rest of the *format*.
+Values that can carry decoded or middleware-supplied request text go through `oneLine` (`escNL`).
 `subst` is `getSubstitution`: custom values, then the sigils `>` `<` `~` `?` `$` tested on
 `key[1]` in that order (a miss falls through to the next test exactly as in Go), then the
 fixed table, then `{labelN}`, then the empty-value marker.  Every Go index/slice expression
@@ -192,12 +193,19 @@ def atoi (s : Bytes) : Option Int :=
     else if x = 43 then (if rest = [] then none else (digits? rest 0).map Int.ofNat)
     else (digits? (x :: rest) 0).map Int.ofNat
 
-def natBytes (n : Nat) : Bytes := (toString n).toList.map fun c => UInt8.ofNat c.toNat
+/-- `strconv.Itoa` of a non-negative number -/
+def natBytes (n : Nat) : Bytes := (Nat.toDigits 10 n).map fun c => UInt8.ofNat c.toNat
 
 def isPrefix : Bytes → Bytes → Bool
   | [], _ => true
   | _ :: _, [] => false
   | a :: as, b :: bs => a == b && isPrefix as bs
+
+/-- `oneLine` = `requestReplacer.Replace`: CR → `\r`, LF → `\n` (two characters each).  Applied to
+the values that reach a placeholder decoded or through another middleware: custom values, query
+arguments, `{path}`, `{rewrite_path}`, `{fragment}`, `{file}`, `{dir}`. -/
+def escNL (s : Bytes) : Bytes :=
+  s.flatMap fun b => if b = 13 then [92, 114] else if b = 10 then [92, 110] else [b]
 
 /-- keys whose value is outside the model (clock, host name, dump of the request, latency) -/
 def opaqueKeys : List String :=
@@ -222,14 +230,14 @@ def table : List (String × (Env → Bytes)) := [
   ("{scheme}", fun σ => if σ.tls then asc "https" else asc "http"),
   ("{host}", fun σ => σ.host),
   ("{hostonly}", fun σ => match σ.hostSplit with | some (h, _) => h | none => σ.host),
-  ("{path}", fun σ => σ.origPath),
+  ("{path}", fun σ => escNL σ.origPath),
   ("{path_escaped}", fun σ => queryEscape σ.origPath),
   ("{request_id}", fun σ => σ.requestID),
-  ("{rewrite_path}", fun σ => σ.curPath),
+  ("{rewrite_path}", fun σ => escNL σ.curPath),
   ("{rewrite_path_escaped}", fun σ => queryEscape σ.curPath),
   ("{query}", fun σ => σ.origRawQuery),
   ("{query_escaped}", fun σ => queryEscape σ.origRawQuery),
-  ("{fragment}", fun σ => σ.origFragment),
+  ("{fragment}", fun σ => escNL σ.origFragment),
   ("{proto}", fun σ => σ.proto),
   ("{remote}", fun σ => match σ.remoteSplit with | some (h, _) => h | none => σ.remoteAddr),
   ("{port}", fun σ => match σ.remoteSplit with | some (_, p) => p | none => σ.empty),
@@ -237,8 +245,8 @@ def table : List (String × (Env → Bytes)) := [
   ("{uri_escaped}", fun σ => queryEscape σ.origURI),
   ("{rewrite_uri}", fun σ => σ.curURI),
   ("{rewrite_uri_escaped}", fun σ => queryEscape σ.curURI),
-  ("{file}", fun σ => (pathSplit σ.curPath).2),
-  ("{dir}", fun σ => (pathSplit σ.curPath).1),
+  ("{file}", fun σ => escNL (pathSplit σ.curPath).2),
+  ("{dir}", fun σ => escNL (pathSplit σ.curPath).1),
   ("{mitm}", fun σ => match σ.mitm with
       | some true => asc "likely" | some false => asc "unlikely" | none => asc "unknown"),
   ("{status}", fun σ => match σ.recorder with | some (st, _) => natBytes st | none => σ.empty),
@@ -298,7 +306,7 @@ def envLookup (σ : Env) (name : Bytes) : Bytes := (assoc σ.osEnv name).getD []
 
 /-- `getSubstitution` -/
 def substR (σ : Env) (key : Bytes) : R :=
-  (ofOpt (assoc σ.custom key)).andThen fun _ =>
+  (ofOpt ((assoc σ.custom key).map escNL)).andThen fun _ =>
   match key[1]? with
   | none => .panic
   | some k1 =>
@@ -308,7 +316,7 @@ def substR (σ : Env) (key : Bytes) : R :=
       | some h => sigil key k1 60 fun want => ofOpt (headerLookup h want)).andThen fun _ =>
     (sigil key k1 126 fun name =>
       if name = [] then .pass else ofOpt (assoc σ.cookies name)).andThen fun _ =>
-    (sigil key k1 63 fun name => .val ((assoc σ.query name).getD [])).andThen fun _ =>
+    (sigil key k1 63 fun name => .val (escNL ((assoc σ.query name).getD []))).andThen fun _ =>
     (sigil key k1 36 fun name =>
       match indexOf 61 name with
       | some i =>
